@@ -121,7 +121,8 @@ class AudioEnv:
 class Env:
     """Everything around the core for one run."""
 
-    def __init__(self, kinds, lengths, script, max_len=10000, volume=None, mute=None):
+    def __init__(self, kinds, lengths, script, max_len=10000, volume=None, mute=None, styles=()):
+        self.styles = list(styles)
         self.kinds = kinds  # per track index: playable/refuse/nouri/raises/nobackend
         self.lengths = lengths
         self.script = list(script)
@@ -141,11 +142,15 @@ class Env:
             raise BudgetExceeded
 
     def uri_of(self, k):
-        scheme = "nobackend" if self.kinds[k] == "nobackend" else "dummy"
-        return f"{scheme}:t{k}"
+        # URI spelling per track: schemes are case-insensitive (a mixed-case scheme still belongs
+        # to the dummy backend); a URI without any scheme has no backend
+        style = self.styles[k] if k < len(self.styles) else 0
+        if self.kinds[k] == "nobackend":
+            return f"plain-t{k}" if style else f"nobackend:t{k}"
+        return f"{('dummy', 'Dummy', 'DUMMY')[style % 3]}:t{k}"
 
     def index_of_uri(self, uri):
-        return int(uri.split(":t", 1)[1])
+        return int(uri.rsplit("t", 1)[1])
 
     def track(self, k):
         from mopidy.models import Track
